@@ -323,6 +323,10 @@ let handle_io (toks : string list) : string =
       Printf.sprintf "%s# %s # inbox=%s" (Buffer.contents out)
         (String.concat ";" (List.map (fun s -> str_pages s.v_pages) !w.wr_bus)) (hex_of_bytes !w.wr_inbox)
     end
+  | ["CP"; t; id] ->
+    (* Sign::width / height / create_page *)
+    let ty = sign_types.(int_of_string t) in
+    Printf.sprintf "%s %s %s" (pn (sign_width ty)) (pn (sign_height ty)) (hex_of_bytes (create_page ty (num id)).p_bytes)
   | ["PT"; baud; cs; par; stop; flow; fail; ctor] ->
     let p = { sp_settings = { s_baud = baud_of_str baud; s_csize = csize_of_str cs; s_parity = parity_of_str par;
                               s_stop = stop_of_str stop; s_flow = flow_of_str flow };
